@@ -25,7 +25,7 @@ Definition tbl_udiff (t : list (pystr * pystr * pystr)) (a b : pystr) : pystr :=
   | Some x => snd x
   | None => []
   end.
-Definition tbl_ops (t : list (path * list opcode)) (p : path) : list opcode :=
+Definition tbl_ops (t : list (path * list opcode)) (p : path) (_ _ : list value) : list opcode :=
   match find (fun x => path_eqb (fst x) p) t with
   | Some x => snd x
   | None => []
